@@ -86,7 +86,7 @@ def graph_view(g):
     for s, d, k, a in G.edges(data=True, keys=True):
         crit = a.get("criteria") or []
         edges.append((s, d, a.get("ref"), crit[0] if crit else None))
-    barriers = {n: a["barrier"] for n, a in G.nodes(data=True) if a.get("barrier")}
+    barriers = {n: a["barrier"] for n, a in G.nodes(data=True) if "barrier" in a}
     retries = {n: a["retry"] for n, a in G.nodes(data=True) if a.get("retry")}
     roots = sorted(x["id"] for x in g.roots)
     return nodes, edges, barriers, retries, roots
@@ -136,7 +136,7 @@ def gen_tasks(rng, n_tasks=3, allow_undefined=False, allow_reserved=False, allow
         if trs:
             td["next"] = trs
         if rng.random() < 0.2:
-            td["join"] = rng.choice(["all", 1, 2])
+            td["join"] = rng.choice(["all", 1, 2, 0])
         if rng.random() < 0.15:
             td["retry"] = {"count": rng.choice([1, 2]), "delay": 1}
         tasks[t] = td
@@ -251,7 +251,8 @@ class DefinitionReaders(Unit):
                     perm = dict((k, tasks[k]) for k in reversed(keys))
                     g2 = native_composer.WorkflowComposer.compose(wf(perm))
                     ctx.oblige("C14.compose.order_independent",
-                               sorted(map(str, graph_view(g2)[1])) == sorted(map(str, graph_view(g)[1]))
+                               json.dumps(g2.serialize(), sort_keys=True) == ser
+                               and sorted(map(str, graph_view(g2)[1])) == sorted(map(str, graph_view(g)[1]))
                                and graph_view(g2)[0] == graph_view(g)[0] and graph_view(g2)[2:] == graph_view(g)[2:], None, info)
                     back = graphing.WorkflowGraph.deserialize(g.serialize())
                     e1 = sorted((s, d, k, json.dumps(a, sort_keys=True)) for s, d, k, a in g._graph.edges(keys=True, data=True))
@@ -321,3 +322,55 @@ class DefinitionReaders(Unit):
 
         ctx.eng.explore(thunk)
         ctx.bounded.append({"unit": self.name, "bound": "%d generated definitions (seed %d), split %s" % (n, seed, split)})
+
+
+class InspectSeedIndependence(Unit):
+    bounded = True
+    name = "D.inspect_seed_independence"
+    functions = ["orquesta.specs.base.Spec.inspect", "orquesta.specs.native.v1.models.TaskMappingSpec.inspect_context",
+                 "orquesta.specs.native.v1.models.TaskMappingSpec.detect_unreachable_tasks"]
+    obligations = {
+        "C19.inspect.seed_independent": {"props": ["C19"], "text":
+            "inspection of a definition whose branches accumulate the same context variables in different orders, with errors downstream, yields the identical report (and the composer the identical graph) in interpreters started with different hash seeds"},
+    }
+    assumptions = ["BOUNDED: 3 definitions x 8 hash seeds, each in a fresh interpreter (cross-process replay: the functions use set iteration in ways the engine does not interpret - a stand-in, not a proof)"]
+    trusted = ["CPython"]
+
+    def run_split(self, ctx, split):
+        import os, subprocess, sys
+        import orquesta
+        root = os.path.dirname(os.path.dirname(os.path.abspath(orquesta.__file__)))
+        names = ["alpha", "bravo", "charlie", "delta", "echo", "foxtrot", "golf", "hotel"]
+        pub1 = [{n: 1} for n in names]
+        pub2 = [{n: 2} for n in reversed(names)]
+        defs = [
+            {"version": 1.0, "tasks": {
+                "t1": {"action": "core.noop", "next": [{"publish": pub1, "do": "t3"}]},
+                "t2": {"action": "core.noop", "next": [{"publish": pub2, "do": "t3"}]},
+                "t3": {"action": "core.echo message=<% ctx().missing %>", "next": [{"do": "t4"}]},
+                "t4": {"action": "core.echo message=<% ctx().gone %> {{ ctx().gone }}"}}},
+            {"version": 1.0, "tasks": {
+                "a": {"action": "core.noop", "next": [{"do": "b, c, zz, yy"}]},
+                "b": {"action": "core.noop", "next": [{"do": "d"}]}, "c": {"action": "core.noop", "next": [{"do": "d"}]},
+                "d": {"join": "all", "action": "core.echo message=<% ctx().u1 %> <% ctx().u2 %>"}}},
+            {"version": 1.0, "vars": [{"v": "<% ctx().w1 %> {{ ctx().w1 }} <% ctx().w2 %>"}],
+             "tasks": {"t1": {"action": "core.noop"}}},
+        ]
+        prog = ("import sys, json\nsys.path.insert(0, %r)\nfrom orquesta.specs import native as specs\n"
+                "from orquesta.composers import native as comp\nd = json.loads(sys.stdin.read())\ns = specs.WorkflowSpec(d)\n"
+                "rep = s.inspect()\ntry:\n    g = json.dumps(comp.WorkflowComposer.compose(s).serialize(), sort_keys=True)\n"
+                "except Exception as e:\n    g = repr(e)\nprint(json.dumps([rep, g], sort_keys=True))\n" % root)
+
+        def thunk(e):
+            for k, d in enumerate(defs):
+                outs = set()
+                for seed in range(8):
+                    env = dict(os.environ, PYTHONHASHSEED=str(seed))
+                    r = subprocess.run([sys.executable, "-c", prog], input=json.dumps(d), env=env, capture_output=True, text=True)
+                    outs.add(r.stdout.strip() or ("ERR:" + r.stderr[-200:]))
+                ctx.oblige("C19.inspect.seed_independent", len(outs) == 1 and not any(o.startswith("ERR:") for o in outs), None,
+                           {"definition": k, "distinct_outputs_over_8_seeds": len(outs)})
+            ctx.canary()
+
+        ctx.eng.explore(thunk)
+        ctx.bounded.append({"unit": self.name, "bound": "3 definitions x 8 seeds"})
